@@ -202,7 +202,7 @@ func (c *V2) Do(op Op) (out Outcome) {
 		_, err := c.C.PutItem(ctx, in)
 		return fin(err)
 	case OpGet:
-		in := &v2ddb.GetItemInput{TableName: aws.String(op.Table), Key: ItemToV2(op.Key), ProjectionExpression: strp(op.Proj), ExpressionAttributeNames: op.Names}
+		in := &v2ddb.GetItemInput{TableName: aws.String(op.Table), Key: ItemToV2(op.Key), ProjectionExpression: strpSet(op.Proj, op.ProjSet), ExpressionAttributeNames: op.Names}
 		in.ReturnConsumedCapacity = v2types.ReturnConsumedCapacity(op.RetCap)
 		in.AttributesToGet = op.AttrsToGet
 		if op.Consistent {
@@ -273,7 +273,7 @@ func (c *V2) Do(op Op) (out Outcome) {
 		}
 		return o
 	case OpQuery:
-		in := &v2ddb.QueryInput{TableName: aws.String(op.Table), FilterExpression: strp(op.Filter), ProjectionExpression: strp(op.Proj),
+		in := &v2ddb.QueryInput{TableName: aws.String(op.Table), FilterExpression: strpSet(op.Filter, op.FilterSet), ProjectionExpression: strpSet(op.Proj, op.ProjSet),
 			ExpressionAttributeNames: op.Names, ExpressionAttributeValues: ItemToV2(op.Values), IndexName: strp(op.Index),
 			ExclusiveStartKey: ItemToV2(op.Start)}
 		in.ReturnConsumedCapacity = v2types.ReturnConsumedCapacity(op.RetCap)
@@ -325,7 +325,7 @@ func (c *V2) Do(op Op) (out Outcome) {
 		}
 		return o
 	case OpScan:
-		in := &v2ddb.ScanInput{TableName: aws.String(op.Table), FilterExpression: strp(op.Filter), ProjectionExpression: strp(op.Proj),
+		in := &v2ddb.ScanInput{TableName: aws.String(op.Table), FilterExpression: strpSet(op.Filter, op.FilterSet), ProjectionExpression: strpSet(op.Proj, op.ProjSet),
 			ExpressionAttributeNames: op.Names, ExpressionAttributeValues: ItemToV2(op.Values), IndexName: strp(op.Index),
 			ExclusiveStartKey: ItemToV2(op.Start)}
 		in.ReturnConsumedCapacity = v2types.ReturnConsumedCapacity(op.RetCap)
@@ -418,7 +418,7 @@ func (c *V2) Do(op Op) (out Outcome) {
 			if op.Consistent {
 				ka.ConsistentRead = aws.Bool(true)
 			}
-			ka.ProjectionExpression = strp(op.Proj)
+			ka.ProjectionExpression = strpSet(op.Proj, op.ProjSet)
 			if op.Proj != "" {
 				ka.ExpressionAttributeNames = op.Names
 			}
